@@ -148,6 +148,12 @@ func ParseShootName(shoot string) (string, int, int, error) {
 	return name, cnt, sleep, nil
 }
 
+// MaxSpreadSize bounds the ring of scenarios that is built from the weights (weight/gcd entries per scenario).
+// The weights come from the ammo file: a ratio that needs a larger ring is rejected instead of being allocated.
+const MaxSpreadSize = 1 << 24
+
+// SpreadNames returns how many entries of the ring every scenario gets, and the size of the ring.
+// A size above MaxSpreadSize means the weights cannot be spread (the size is then not exact).
 func SpreadNames(input []ScenarioConfig) (map[string]int, int) {
 	if len(input) == 0 {
 		return nil, 0
@@ -170,9 +176,12 @@ func SpreadNames(input []ScenarioConfig) (map[string]int, int) {
 	names := make(map[string]int)
 	total := 0
 	for _, sc := range input {
-		cnt := int(sc.Weight / div)
-		total += cnt
-		names[sc.Name] = cnt
+		cnt := sc.Weight / div
+		if cnt > MaxSpreadSize || total > MaxSpreadSize {
+			return names, MaxSpreadSize + 1
+		}
+		total += int(cnt)
+		names[sc.Name] = int(cnt)
 	}
 	return names, total
 }
